@@ -4,6 +4,7 @@ from vf.props import localpool as LP
 
 TAG = "[C13]"
 META = dict(LP.META_COMMON)
+META["solver_reasoned"] = 'as C11, plus back-to-back delivery flags.'
 
 
 def _body(e0, e1, e2, e3, e4, e5, f0, f1, f2, f3, f4, f5, rc0, rc1, rc2, rc3, sf, lf):
